@@ -1776,9 +1776,10 @@ func (e *Engine) deleteSeriesRange(seriesKeys [][]byte, min, max int64) error {
 
 			var hasCacheValues bool
 			// If there are multiple fields, they will have the same prefix.  If any field
-			// has values, then we can't delete it from the index.
+			// has values, then we can't delete it from the index.  Keys of other series
+			// share the prefix too ("cpu" and "cpu,host=a"): only this series' keys count.
 			for i < len(deleteKeys) && bytes.HasPrefix(deleteKeys[i], k) {
-				if e.Cache.Values(deleteKeys[i]).Len() > 0 {
+				if sk, _ := SeriesAndFieldFromCompositeKey(deleteKeys[i]); bytes.Equal(sk, k) && e.Cache.Values(deleteKeys[i]).Len() > 0 {
 					hasCacheValues = true
 					break
 				}
